@@ -850,16 +850,31 @@ func (h *c10Hist) sleep(d time.Duration) {
 	h.st.Emit("sleep "+strconv.FormatInt(d.Nanoseconds(), 10), h.w.summary())
 }
 
-func c10SnapEqual(a, b domainRoutingOwnerSnapshot) bool {
-	if a.bitmap != b.bitmap || len(a.ips) != len(b.ips) {
-		return false
+// the model's notion of "the queued entry is still what the cache holds": same bitmap and the same key list
+// in answer order (duplicates collapsed onto their last occurrence, as Model.dedup does). It is stricter than
+// set equality; a refresh that is stale in this sense but lists the same set is harmless (m stays 1).
+func c10OrderedSnap(c *DnsCache) (string, bool) {
+	snap, err := buildDomainRoutingOwnerSnapshot(c)
+	if err != nil {
+		return "", false
 	}
-	for k := range a.ips {
-		if _, ok := b.ips[k]; !ok {
-			return false
+	var keys [][16]byte
+	for _, ip := range extractIPsFromDnsCache(c) {
+		keys = append(keys, ip.As16())
+	}
+	var parts []string
+	for i, k := range keys {
+		later := false
+		for _, k2 := range keys[i+1:] {
+			if k2 == k {
+				later = true
+			}
+		}
+		if !later {
+			parts = append(parts, hex.EncodeToString(k[:]))
 		}
 	}
-	return true
+	return c10Bits(snap.bitmap.Bitmap[:]) + "|" + strings.Join(parts, ","), true
 }
 
 func (h *c10Hist) work() {
@@ -870,9 +885,9 @@ func (h *c10Hist) work() {
 			// is the entry this task points to still what the cache holds under its key?
 			fresh := false
 			if cur, ok := w.ctrl.dnsCache.Load(task.cache.RouteOwnerKey); ok {
-				a, _ := buildDomainRoutingOwnerSnapshot(cur.(*DnsCache))
-				b, _ := buildDomainRoutingOwnerSnapshot(task.cache)
-				fresh = c10SnapEqual(a, b)
+				a, okA := c10OrderedSnap(cur.(*DnsCache))
+				b, okB := c10OrderedSnap(task.cache)
+				fresh = okA && okB && a == b
 			}
 			if !fresh {
 				w.stale = true
